@@ -19,7 +19,7 @@ struct N {
     wid: u32,
     total: i32,
     pe: u16,
-    pi: u16,
+    pi: u32,
     row_idx: usize,
 }
 
@@ -146,7 +146,7 @@ through the verif hook before (complete previous state: all allocated rows, size
         };
         let (fsize, frows) = match fresh_rows { Some(x) => x, None => { run.bump("fresh-panic"); continue; } };
         // flatten the valid rows
-        let flat = |rows: &Vec<Vec<(usize, usize, u16, u16, i16, u32, i32, u16, u16)>>, size: usize| -> Vec<N> {
+        let flat = |rows: &Vec<Vec<(usize, usize, u16, u16, i16, u32, i32, u16, u32)>>, size: usize| -> Vec<N> {
             let mut nodes: Vec<N> = vec![];
             for row in rows.iter().take(size) {
                 for (i, x) in row.iter().enumerate() {
@@ -222,7 +222,7 @@ through the verif hook before (complete previous state: all allocated rows, size
         let mut path_cost: Option<i64> = None;
         let mut path_nodes: Vec<N> = vec![];
         if let Some((ee, ei, _)) = eos {
-            let find = |e: u16, i: u16| nodes.iter().find(|x| x.e == e as usize && x.row_idx == i as usize).cloned();
+            let find = |e: u16, i: u32| nodes.iter().find(|x| x.e == e as usize && x.row_idx == i as usize).cloned();
             let mut cur = find(ee, ei);
             let mut guard = 0;
             while let Some(nd) = cur {
@@ -470,6 +470,51 @@ through the verif hook before (complete previous state: all allocated rows, size
         }
         if let Some((k, what)) = fail {
             run.fail(idx, &format!("c02:{}", k), &format!("{} | text={:?} earlier texts on the same tokenizer={:?} world={}", what, text, warm, w.desc.join(" ")));
+        }
+    }
+    // DIRECTED, oracle only (the case line would carry a 65 600-entry row): more than 65 535 candidates END AT ONE BOUNDARY.
+    // A grouped class (ALPHA 1 1 1) with 4 unk.def lines over a run of 16 400 letters puts 4 x 16 400 grouped candidates into
+    // the row of the run's end.  With the u16 row index of the pinned tree the back-pointer of the candidates that begin in
+    // the last 16 positions wrapped and fill_top_path followed a dearer chain (16 tokens of cost -160 instead of 16 400 of
+    // cost -164 000); repaired in /repo by 9fb3dd8 (u32 index; Lean: Total.asU32, C03.row_index_u16_wraps_counterexample,
+    // C03.tokenize_total_bundled_u32).  The cheapest chain is known in closed form: every letter alone, cost -10 each.
+    if run.wants(n) {
+        let wd = Workdir::new("C02-d-rowwrap");
+        wd.write("char.def", "DEFAULT 0 1 0\nALPHA 1 1 1\n0x0061..0x007A ALPHA\n");
+        let pos = POS[0].join(",");
+        wd.write("unk.def", &format!("DEFAULT,0,0,100,{p}\nALPHA,0,0,-10,{p}\nALPHA,0,0,-9,{p}\nALPHA,0,0,-8,{p}\nALPHA,0,0,-7,{p}\n", p = pos));
+        let rows = vec![Row::simple("あ", 0, 0, 100, NOUN)];
+        let built = build_system(csv_of(&rows, &default_pos()).as_bytes(), "1 1\n0 0 0\n".as_bytes())
+            .and_then(|sys| load(&config_json(&wd, &[], &[crate::c13::mecab_json(), simple_oov_json(0, 0, 3000)], &[], &[]), sys, vec![]));
+        match built {
+            Ok(dic) => {
+                for (name, len) in [("row-wrap-below", 16000usize), ("row-wrap", 16400usize)] {
+                    let text = "a".repeat(len);
+                    let res = catch(|| {
+                        let mut tok = StatefulTokenizer::new(&dic, Mode::C);
+                        tok.reset().push_str(&text);
+                        tok.do_tokenize().map_err(|e| format!("{:?}", e))?;
+                        let maxrow = tok.verif_lattice().verif_rows().iter().map(|r| r.len()).max().unwrap_or(0);
+                        let mut ml = MorphemeList::empty(&dic);
+                        ml.collect_results(&mut tok).map_err(|e| format!("{:?}", e))?;
+                        Ok::<(usize, usize, i32), String>((maxrow, ml.len(), ml.iter().last().map(|m| m.total_cost()).unwrap_or(0)))
+                    });
+                    run.bump(&format!("directed:{}", name));
+                    match res {
+                        Ok(Ok((maxrow, toks, cost))) => {
+                            run.bump(&format!("directed:{}:longest-row-{}", name, if maxrow > 65535 { ">65535" } else { "<=65535" }));
+                            run.extra.insert(format!("observation_{}", name.replace('-', "_")),
+                                serde_json::json!(format!("{} x 'a': longest row {}, {} morphemes, path cost {} (cheapest: {} morphemes, {})", len, maxrow, toks, cost, len, -10 * len as i64)));
+                            if toks != len || cost as i64 != -10 * len as i64 {
+                                run.fail_with_line(n, "", "c02:row-wrap:not-cheapest", &format!("{} letters (longest lattice row {}): the returned path has {} morphemes and cost {}, the cheapest chain has {} one-letter morphemes and costs {}", len, maxrow, toks, cost, len, -10 * len as i64));
+                            }
+                        }
+                        Ok(Err(e)) => run.fail_with_line(n, "", "c02:row-wrap:error", &format!("{} letters: {}", len, e)),
+                        Err(p) => run.fail_with_line(n, "", "c02:row-wrap:panic", &format!("{} letters: {}", len, p)),
+                    }
+                }
+            }
+            Err(e) => run.fail_with_line(n, "", "c02:row-wrap:dictionary", &format!("the directed dictionary does not build/load: {}", e)),
         }
     }
 }
